@@ -1,13 +1,19 @@
 (* PgrInst.v — instantiation of the big operations the pow / gcd / roots models are
    parameterised by, at the real models of the other areas:
      bdivrem := Div.udivrem Extracted.div     (exact by DivProofsApi.udivrem_spec, C03)
-     bmul    := (Mul.umul Extracted.mul — NOT YET on main: the theorems keep [bmul_exact bmul]
-                as their only hypothesis; see docs/notes/pgr.md) *)
+     bmul    := Mul.umul Extracted.mul        (exact by MulProofs5.umul_spec, C02)
+   With both discharged, the theorems of props/C11.v, C12.v, C13.v are closed statements about
+   the real models (no [bmul] / [bdivrem] quantifier, no exactness hypothesis). *)
 From BigNum Require Import Base BaseLemmas X86 AddSub PgrLoop PgrLoopProofs Div DivProofs DivProofsApi
-  Extracted InstDiv.
+  Mul MulProofs5 Extracted InstDiv InstMul.
 Open Scope Z_scope.
 
 Definition pgr_bdivrem : list Z -> list Z -> outcome (list Z * list Z) := Div.udivrem Extracted.div.
 
 Lemma pgr_bdivrem_exact : bdivrem_exact pgr_bdivrem.
 Proof. intros a b Ca Cb. apply udivrem_spec; auto using div_params_ok. Qed.
+
+Definition pgr_bmul : list Z -> list Z -> outcome (list Z) := Mul.umul Extracted.mul.
+
+Lemma pgr_bmul_exact : bmul_exact pgr_bmul.
+Proof. intros a b Ca Cb. apply umul_spec; auto using mul_params_ok. Qed.
